@@ -52,8 +52,9 @@ template <> inline __MPT_CONST_TYPE int type_properties<metatype *>::id(bool) {
 	return TypeMetaPtr;
 }
 template <> inline const struct type_traits *type_properties<metatype *>::traits() {
-	static const struct named_traits *nt = metatype::pointer_traits();
-	return &nt->traits;
+	/* no caching of a failed lookup: table setup is retried by registry */
+	const struct named_traits *nt = metatype::pointer_traits();
+	return nt ? &nt->traits : 0;
 }
 
 template <> inline __MPT_CONST_TYPE int type_properties<reference<metatype> >::id(bool) {
